@@ -3,12 +3,13 @@
 
   Model: JRV.Model.Pool (labelled transition system of ThreadPool at synchronisation-operation granularity; `mkPool?`
   for the constructor).  Theorems quantify over every reachable state: any number of client threads, tasks and steps,
-  every interleaving, every timing of the time-outs.
+  every interleaving, every timing of the time-outs, with or without failing `Thread.start()` calls (`cfg.startMayFail`);
+  the growth / floor / progress theorems assume that thread creation never fails (`cfg.startMayFail = false`), which is
+  said in their statements.  Companion theorems of the extracted facts: JRV/Properties/C10Gen.lean.
 -/
 import JRV.Lemmas.PoolLock
 import JRV.Lemmas.PoolC10
 import JRV.Lemmas.PoolLock2
-import JRV.Generated
 
 set_option linter.unusedSimpArgs false
 set_option linter.unusedVariables false
@@ -51,6 +52,30 @@ theorem C10_ctor_accepted (mx mn qs : Arg) (m n : Int) (hm : pyInt mx = .ok m) (
     | error e => simp
     | ok q => simp; split <;> omega
 
+/-- Non-finite sizes (`float('inf')`, `float('-inf')`, the literal `1e400`, `float('nan')`): `int()` raises OverflowError /
+    ValueError, which the constructor catches like every other `int()` error — `max_threads` and `min_threads` are
+    rejected with `ValueError`, a non-finite `queue_size` means "unbounded". -/
+theorem C10_ctor_nonfinite (a b c : Arg) (neg : Bool) :
+    mkPool? (.floatInf neg) b c = .error "ValueError" ∧ mkPool? .floatNan b c = .error "ValueError" ∧
+    (∀ m, pyInt a = .ok m → 1 ≤ m →
+      mkPool? a (.floatInf neg) c = .error "ValueError" ∧ mkPool? a .floatNan c = .error "ValueError" ∧
+      (∀ n, pyInt b = .ok n →
+        mkPool? a b (.floatInf neg) = mkPool? a b (.int 0) ∧ mkPool? a b .floatNan = mkPool? a b (.int 0) ∧
+        ∃ cfg, mkPool? a b (.floatInf neg) = .ok cfg ∧ cfg.qbound = 0)) := by
+  refine ⟨rfl, rfl, fun m hm h1 => ⟨?_, ?_, fun n hn => ⟨?_, ?_, ?_⟩⟩⟩
+  · exact C10_ctor_min_rejected a _ c m hm h1 .overflowError rfl
+  · exact C10_ctor_min_rejected a _ c m hm h1 .valueError rfl
+  · unfold mkPool?; simp only [hm, hn]; rfl
+  · unfold mkPool?; simp only [hm, hn]; rfl
+  · have : ¬ m < 1 := by omega
+    refine ⟨{ max := m.toNat, min := (if n < 0 then 0 else if n > m then m else n).toNat, qbound := 0 }, ?_, rfl⟩
+    unfold mkPool?
+    simp only [hm, hn, this, if_false]
+    rfl
+
+example : mkPool? (.floatInf false) (.int 1) (.int 0) = .error "ValueError" := by rfl
+example : mkPool? (.int 2) .floatNan (.int 0) = .error "ValueError" := by rfl
+example : mkPool? (.int 2) (.int 1) (.floatInf true) = .ok { max := 2, min := 1, qbound := 0 } := by rfl
 example : mkPool? (.str (some 3)) (.float (-2)) (.str none) = .ok { max := 3, min := 0, qbound := 0 } := by rfl
 example : mkPool? (.int 2) (.int 7) (.int 5) = .ok { max := 2, min := 2, qbound := 5 } := by rfl
 example : mkPool? (.float 0) (.int 1) (.int 0) = .error "ValueError" := by rfl
@@ -66,6 +91,35 @@ theorem C10_counters_exact (cfg : Config) (n : Nat) (s : State) (hr : Reach (ini
     s.nbPending = s.queue.countP isTask + s.workers.countP wHasTask + s.clients.countP cHoldsTask :=
   let h := (BaseInv_reach hr).count
   ⟨h.threads, h.active, h.pending⟩
+
+/-- **A failed `Thread.start()` leaves the accounting untouched.**  The failure branch of `__start_thread` (taken by
+    `start()` at `stIsSet k` or by `enqueue` at `enqStIsSet`, flag clear, `Thread.start()` raises) changes nothing but the
+    caller's program counter: `nb_threads`, the worker table, `_threads`, the queue and the pending count are those of the
+    state before (`nb_threads += 1` is undone by the `except` arm — fact `poolStartRollback` —, the thread that failed to
+    start is not listed and does not exist), the caller goes on to release the lock and `__start_thread` answers False.
+    With `C10_counters_exact` (every reachable state, failures included): `nb_threads = #counted workers` survives. -/
+theorem C10_start_failure_rollback (s s' : State) (i : Nat) (c : Client) (hc : s.clients[i]? = some c)
+    (hpc : (∃ k, c.pc = .stIsSet k) ∨ c.pc = .enqStIsSet)
+    (h : step? s ⟨.client i, .eventIsSet, true⟩ = some s') :
+    s.cfg.startMayFail = true ∧ s.stop = false ∧
+    s' = { s with clients := s.clients.set i { c with pc := match c.pc with | .stIsSet k => .stRel k | _ => .enqStRel } } ∧
+    s'.nbThreads = s.nbThreads ∧ s'.workers = s.workers ∧ s'.threads = s.threads ∧ s'.nbPending = s.nbPending ∧
+    s'.queue = s.queue := by
+  simp only [step?, hc] at h
+  rcases hpc with ⟨k, hpc⟩ | hpc <;> simp [clientStep, hpc] at h <;> obtain ⟨⟨h1, h2⟩, h⟩ := h <;> subst h <;>
+    simp [h1, h2, setClient, hpc]
+
+/-- Non-vacuity of `C10_start_failure_rollback` / `C10_counters_exact` across failures: `start()` of a pool with
+    `min_threads = 2`: the first `Thread.start()` fails, the second succeeds — one worker, `nb_threads = 1`, `_threads`
+    lists it; a later `enqueue` (pending 1 ≤ threads 1) does not need to grow. -/
+example : ∃ s, run (init { max := 2, min := 2, qbound := 0, startMayFail := true } 1)
+    [⟨.client 0, .callStart, false⟩, ⟨.client 0, .eventIsSet, false⟩, ⟨.client 0, .eventClear, false⟩,
+     ⟨.client 0, .queueQsize, false⟩, ⟨.client 0, .lockAcquire, false⟩, ⟨.client 0, .eventIsSet, true⟩,
+     ⟨.client 0, .lockRelease, false⟩, ⟨.client 0, .lockAcquire, false⟩, ⟨.client 0, .eventIsSet, false⟩,
+     ⟨.client 0, .lockRelease, false⟩] = some s ∧
+    s.nbThreads = 1 ∧ s.workers.countP counted = 1 ∧ s.threads = [0] ∧ s.clients.map (·.pc) = [.idle] ∧
+    s.cfg.min = 2 ∧ s.stop = false := by
+  refine ⟨_, rfl, ?_⟩; decide
 
 /-! ### the bounds -/
 
@@ -140,6 +194,9 @@ theorem C10_serving_le_max (cfg : Config) (n : Nat) (s : State) (hr : Reach (ini
 /-! ### growth: no starvation below capacity, and the floor
 
   Guards (all `Bool`-valued, each needed):
+  * `cfg.startMayFail = false` — the environment assumption that `Thread.start()` never raises.  A failed start leaves
+    the pool with fewer threads than it asked for (the counters stay exact: `C10_start_failure_rollback`), so nothing can
+    be promised about growth; the example after `C10_start_failure_rollback` shows `min_threads = 2` with one worker.
   * `cfg.singleCtl = true` — `start`/`stop`/`clear` are issued by one controlling thread (client 0).  Two controllers
     could overlap a `stop()` with a `start()` and leave workers that have seen the stop flag counted in `nb_threads`.
   * `s.stop = false` — the pool is running (from `start()`'s `event.clear` to `stop()`'s `event.set`); once the flag is
@@ -178,12 +235,13 @@ private theorem serving_eq_threads {s : State} (hB : BaseInv s) (hR : FreshInv s
     per client between `enqueue`'s growth test and its `__start_thread`, the remaining iterations of `start()`) are at
     least `min(#queued tasks, max − #workers holding a task)`. -/
 theorem C10_no_starvation_owed (cfg : Config) (n : Nat) (s : State) (hctl : cfg.singleCtl = true)
+    (hnf : cfg.startMayFail = false)
     (hr : Reach (init cfg n) s) (hrun : s.stop = false) (hq : ∀ c ∈ s.clients, atQsize c = false) :
     min (s.queue.countP isTask) (cfg.max - s.workers.countP wHasTask)
       ≤ s.workers.countP (fun w => serving w && !wHasTask w) + (s.clients.map weight).sum := by
   have hB := BaseInv_reach hr
   have hK := CtlBundle_reach hctl hr
-  have hG := (GrowInv_reach hctl hr).grow hrun (by
+  have hG := (GrowInv_reach hctl hr).grow (by rw [reach_cfg hr]; exact hnf) hrun (by
     rw [List.countP_eq_zero]; intro c hc; simp [hq c hc])
   rw [reach_cfg hr] at hG
   have h1 := counted_split hB hK.fresh hrun
@@ -198,6 +256,7 @@ theorem C10_no_starvation_owed (cfg : Config) (n : Nat) (s : State) (hctl : cfg.
     at `queue.get`, or in its accounting/retirement section, and it retires only when `nb_threads > nb_pending`, i.e.
     when this inequality survives its leaving. -/
 theorem C10_no_starvation (cfg : Config) (n : Nat) (s : State) (hctl : cfg.singleCtl = true)
+    (hnf : cfg.startMayFail = false)
     (hr : Reach (init cfg n) s) (hrun : s.stop = false)
     (hstart : ∀ c, s.clients[0]? = some c → inStart c.pc = false)
     (hspawn : ∀ c ∈ s.clients, spawnOwed c.pc = false) :
@@ -205,30 +264,32 @@ theorem C10_no_starvation (cfg : Config) (n : Nat) (s : State) (hctl : cfg.singl
       ≤ s.workers.countP (fun w => serving w && !wHasTask w) := by
   have hK := CtlBundle_reach hctl hr
   have hns := no_client_inStart hK.ctl hstart
-  have h := C10_no_starvation_owed cfg n s hctl hr hrun (fun c hc => atQsize_inStart (hns c hc))
+  have h := C10_no_starvation_owed cfg n s hctl hnf hr hrun (fun c hc => atQsize_inStart (hns c hc))
   rw [sum_map_eq_zero weight s.clients (fun c hc => weight_zero (hns c hc) (hspawn c hc))] at h
   exact h
 
 /-- The statement as first written (no client holds the pool lock): a special case. -/
 theorem C10_no_starvation_unlocked (cfg : Config) (n : Nat) (s : State) (hctl : cfg.singleCtl = true)
+    (hnf : cfg.startMayFail = false)
     (hr : Reach (init cfg n) s) (hrun : s.stop = false)
     (hstart : ∀ c, s.clients[0]? = some c → inStart c.pc = false)
     (hlock : ∀ c ∈ s.clients, cDepth c.pc = 0) :
     min (s.queue.countP isTask) (cfg.max - s.workers.countP wHasTask)
       ≤ s.workers.countP (fun w => serving w && !wHasTask w) := by
-  refine C10_no_starvation cfg n s hctl hr hrun hstart (fun c hc => ?_)
+  refine C10_no_starvation cfg n s hctl hnf hr hrun hstart (fun c hc => ?_)
   have := hlock c hc
   unfold spawnOwed; unfold cDepth at this
   cases hpc : c.pc <;> simp_all
 
 /-- A queued task with spare capacity has a free serving worker. -/
 theorem C10_free_worker_exists (cfg : Config) (n : Nat) (s : State) (hctl : cfg.singleCtl = true)
+    (hnf : cfg.startMayFail = false)
     (hr : Reach (init cfg n) s) (hrun : s.stop = false)
     (hstart : ∀ c, s.clients[0]? = some c → inStart c.pc = false)
     (hspawn : ∀ c ∈ s.clients, spawnOwed c.pc = false)
     (t : Nat) (ht : Item.task t ∈ s.queue) (hcap : s.workers.countP wHasTask < cfg.max) :
     ∃ w ∈ s.workers, serving w = true ∧ wHasTask w = false := by
-  have h := C10_no_starvation cfg n s hctl hr hrun hstart hspawn
+  have h := C10_no_starvation cfg n s hctl hnf hr hrun hstart hspawn
   have hq : 0 < s.queue.countP isTask := List.countP_pos_iff.mpr ⟨_, ht, rfl⟩
   have : 0 < s.workers.countP (fun w => serving w && !wHasTask w) := by omega
   obtain ⟨w, hw, hp⟩ := List.countP_pos_iff.mp this
@@ -236,14 +297,15 @@ theorem C10_free_worker_exists (cfg : Config) (n : Nat) (s : State) (hctl : cfg.
 
 /-- **The floor**: from the return of `start()` until `stop()` sets the flag, at least `min_threads` workers serve the
     queue (`min_threads ≤ max_threads` is what the constructor guarantees: `C10_ctor_accepted`). -/
-theorem C10_min_floor (cfg : Config) (n : Nat) (s : State) (hctl : cfg.singleCtl = true) (hmm : cfg.min ≤ cfg.max)
+theorem C10_min_floor (cfg : Config) (n : Nat) (s : State) (hctl : cfg.singleCtl = true)
+    (hnf : cfg.startMayFail = false) (hmm : cfg.min ≤ cfg.max)
     (hr : Reach (init cfg n) s) (hrun : s.stop = false)
     (hstart : ∀ c, s.clients[0]? = some c → inStart c.pc = false) :
     cfg.min ≤ s.workers.countP serving := by
   have hB := BaseInv_reach hr
   have hK := CtlBundle_reach hctl hr
   have hns := no_client_inStart hK.ctl hstart
-  have hG := (GrowInv_reach hctl hr).floor hrun (by
+  have hG := (GrowInv_reach hctl hr).floor (by rw [reach_cfg hr]; exact hnf) hrun (by
     rw [List.countP_eq_zero]; intro c hc; simp [atQsize_inStart (hns c hc)])
   rw [reach_cfg hr, sum_map_eq_zero startWeight s.clients (fun c hc => startWeight_zero (hns c hc))] at hG
   rw [serving_eq_threads hB hK.fresh hrun]
@@ -331,6 +393,7 @@ private theorem release_enabled {s : State} (hL : LockInv s) (k : Nat) (ho : s.l
     non-environment) operation is enabled, or the pool lock is held by a worker whose `lock.release` is enabled.  No
     `task.end` — no running task finishing — is needed for the pool to move towards `queue.get`. -/
 theorem C10_progress_no_stuck_worker (cfg : Config) (n : Nat) (s : State) (hctl : cfg.singleCtl = true)
+    (hnf : cfg.startMayFail = false)
     (hr : Reach (init cfg n) s) (hrun : s.stop = false)
     (hstart : ∀ c, s.clients[0]? = some c → inStart c.pc = false)
     (hlock : ∀ c ∈ s.clients, cDepth c.pc = 0)
@@ -345,7 +408,7 @@ theorem C10_progress_no_stuck_worker (cfg : Config) (n : Nat) (s : State) (hctl 
   obtain ⟨t, ht⟩ := hq
   have hfree : ∃ w ∈ s.workers, serving w = true ∧ wHasTask w = false := by
     rcases hcap with hlt | h
-    · refine C10_free_worker_exists cfg n s hctl hr hrun hstart (fun c hc => ?_) t ht ?_
+    · refine C10_free_worker_exists cfg n s hctl hnf hr hrun hstart (fun c hc => ?_) t ht ?_
       · have := hlock c hc
         unfold spawnOwed; unfold cDepth at this
         cases hpc : c.pc <;> simp_all
@@ -399,16 +462,19 @@ theorem C10_progress_no_stuck_worker (cfg : Config) (n : Nat) (s : State) (hctl 
           cases hret : retires s <;> simp [step?, hk, workerStep, hpc, hacq, hret])
       exact ⟨.lockAcquire, s', rfl, hs'⟩
 
-/-- The no-stuck statement in the form first written (every client idle): some worker has an enabled operation that is
-    neither a time-out nor the end of a task body. -/
+/-- The no-stuck statement as an action: no client inside a critical section of the pool lock (other client threads may
+    be anywhere in `join()`, `join(t)`, `result(t)`, or waiting for the lock at the start of `enqueue`) and `start()`
+    returned — some worker has an enabled operation that is neither a time-out nor the end of a task body.  (The form
+    first written asked for every client to be idle: the special case `c.pc = .idle`, for which both hypotheses hold.) -/
 theorem C10_progress_no_stuck (cfg : Config) (n : Nat) (s : State) (hctl : cfg.singleCtl = true)
-    (hr : Reach (init cfg n) s) (hrun : s.stop = false) (hidle : ∀ c ∈ s.clients, c.pc = .idle)
+    (hnf : cfg.startMayFail = false)
+    (hr : Reach (init cfg n) s) (hrun : s.stop = false)
+    (hstart : ∀ c, s.clients[0]? = some c → inStart c.pc = false)
+    (hlock : ∀ c ∈ s.clients, cDepth c.pc = 0)
     (hq : ∃ t, Item.task t ∈ s.queue)
     (hcap : s.nbThreads < cfg.max ∨ ∃ w ∈ s.workers, serving w = true ∧ wHasTask w = false) :
     ∃ a s', a.timeout = false ∧ internalOp a.op = true ∧ (∃ k, a.who = .worker k) ∧ step? s a = some s' := by
-  have h := C10_progress_no_stuck_worker cfg n s hctl hr hrun
-    (fun c hc => by rw [hidle c (List.mem_of_getElem? hc)]; rfl)
-    (fun c hc => by rw [hidle c hc]; rfl) hq hcap
+  have h := C10_progress_no_stuck_worker cfg n s hctl hnf hr hrun hstart hlock hq hcap
   obtain ⟨k, w, _, _, _, h⟩ := h
   rcases h with ⟨op, s', hop, hst⟩ | ⟨k', s', _, hst⟩
   · exact ⟨⟨.worker k, op, false⟩, s', rfl, hop, ⟨k, rfl⟩, hst⟩
@@ -469,7 +535,7 @@ def isCallOp (op : Op) : Bool :=
     a task for as long as it waits, is eventually removed from the queue (taken by a worker, or dropped by `clear()`)
     — whether or not any running task ever finishes. -/
 def C10_liveness_full_statement : Prop :=
-  ∀ (cfg : Config) (n : Nat) (σ : Nat → State) (α : Nat → Action), cfg.singleCtl = true →
+  ∀ (cfg : Config) (n : Nat) (σ : Nat → State) (α : Nat → Action), cfg.singleCtl = true → cfg.startMayFail = false →
     σ 0 = init cfg n → (∀ i, step? (σ i) (α i) = some (σ (i + 1))) →
     (∀ (who : Tid) (op : Op) (i : Nat), internalOp op = true → isCallOp op = false →
       (∀ j, i ≤ j → ∃ j', j ≤ j' ∧ (step? (σ j') ⟨who, op, false⟩).isSome = true) →
@@ -480,14 +546,10 @@ def C10_liveness_full_statement : Prop :=
       (∀ j, i ≤ j → Item.task t ∈ (σ j).queue → (σ j).workers.countP wHasTask < cfg.max) →
       ∃ j, i ≤ j ∧ Item.task t ∉ (σ j).queue
 
-/-! ### extracted facts -/
-
-theorem C10_gen_poolGrowthRule : Generated.poolGrowthRule = some growthRuleSpec := by decide
-theorem C10_gen_poolSpawnRefusal : Generated.poolSpawnRefusal = some spawnRefusalSpec := by decide
-theorem C10_gen_poolRetireRule : Generated.poolRetireRule = some retireRuleSpec := by decide
-theorem C10_gen_poolPendingStores : Generated.poolPendingStores = some pendingStoresSpec := by decide
-theorem C10_gen_poolClearDecrementsTasksOnly : Generated.poolClearDecrementsTasksOnly = some clearDecrementsTasksOnlySpec := by decide
-theorem C10_gen_poolCtorDefaults : Generated.poolCtorDefaults = some ctorDefaultsSpec := by decide
-theorem C10_gen_poolUnlockedAccesses : Generated.poolUnlockedAccesses = some unlockedAccessesSpec := by decide
+/-- The progress claim at full strength, under the name the README asks for: `C10_progress_no_stuck(_worker)` and
+    `C10_progress_measure` are its safety skeleton in states whose clients are outside the critical sections; what is
+    missing is a per-task measure that the steps of *other client threads* (concurrent `enqueue`s taking the lock,
+    `start()` still spawning) do not increase, and the induction over a fair run. -/
+def C10_progress_full_statement : Prop := C10_liveness_full_statement
 
 end JRV.Props
